@@ -1076,6 +1076,49 @@ func streamE2E(e *Emitter, rng *rand.Rand, tier string) {
 			return cl["req:cut"] > 0 && ((sc.ClientProto == "grpc" && !has(sc.Cfg.Protocols, "grpc")) || (sc.ClientProto == "grpcweb" && !has(sc.Cfg.Protocols, "grpcweb")))
 		}},
 	}
+	// mutated families: a clean scenario of a given shape, then changed in a way no independent draw produces.
+	// answer-first-then-bad-envelope: an enveloped client in front of a backend without envelopes (Connect unary); the
+	// handler answers first (the response, of undeclared length, is buffered to be measured) and only then drains a
+	// request body whose second envelope is illegal - the request side ends the RPC while the response is buffered.
+	for k := 0; k < n/50; k++ {
+		for try := 0; try < 4000; try++ {
+			scratch := &Emitter{kinds: map[string]int{}, classes: map[string]int{}, nontriv: map[string]struct{}{}}
+			sc := genScenario(scratch, rng)
+			if sc.Expect == nil || !(sc.ClientProto == "grpc" || sc.ClientProto == "grpcweb" || sc.ClientProto == "connect-stream") ||
+				len(sc.Cfg.Protocols) != 1 || sc.Cfg.Protocols[0] != "connect" || !strings.HasSuffix(string(unhx(sc.Req.Path)), "/Unary") ||
+				len(sc.Req.Body) == 0 || sc.Duplex || len(sc.Gates) > 0 {
+				continue
+			}
+			declares := false
+			var answer, reads [][]string
+			for _, op := range sc.Script {
+				if strings.HasPrefix(op[0], "read") {
+					reads = append(reads, op)
+					continue
+				}
+				if op[0] == "sethdr" || op[0] == "addhdr" {
+					declares = declares || strings.EqualFold(string(unhx(op[1])), "Content-Length")
+				}
+				answer = append(answer, op)
+			}
+			if declares || len(reads) == 0 {
+				continue
+			}
+			sc.Expect = nil
+			sc.Req.Body = append(sc.Req.Body, hx([]byte{pick(rng, []byte{0x7f, 2, 0x80, 3}), 0, 0, 0, 0}))
+			if sc.Req.ContentLength >= 0 {
+				sc.Req.ContentLength += 5
+			}
+			sc.Script = append(answer, []string{"readall", fmt.Sprint(pick(rng, []int{1, 5, 64}))})
+			for c, v := range scratch.classes {
+				e.classes[c] += v
+			}
+			e.Class("directed:answer-first-then-bad-envelope")
+			raw, _ := json.Marshal(sc)
+			e.Emit("e2e " + hex.EncodeToString(raw))
+			break
+		}
+	}
 	per := n / 50
 	for _, f := range families {
 		for k := 0; k < per; k++ {
